@@ -85,8 +85,9 @@ namespace plan
     }
     bool planting(long u) const { return plant_mode == 1 || (plant_mode == 2 && modn(u, 4) != 0); }
 
-    bool p_interval(const PredD &p) const { return (p.cls >= 0 && m.classes[p.cls].is_sv) || p.kind == 1; }
-    bool p_impulse(const PredD &p) const { return !(p.cls >= 0 && m.classes[p.cls].is_sv) && p.kind == 2; }
+    bool in_plain_sv(const PredD &p) const { return p.cls >= 0 && m.classes[p.cls].is_sv && !m.classes[p.cls].is_agent; }
+    bool p_interval(const PredD &p) const { return in_plain_sv(p) || p.kind == 1; }
+    bool p_impulse(const PredD &p) const { return !in_plain_sv(p) && p.kind == 2; }
     static long modn(long v, size_t n) { return n ? static_cast<long>((v < 0 ? -v : v) % static_cast<long>(n)) : 0; }
 
     mpq_class q(long num, long den, long lim)
